@@ -152,6 +152,7 @@ func Run(cfg Config, mainFn func()) *Sim {
 	}
 	s := &Sim{cfg: cfg, chans: map[uintptr]*chanModel{}, finished: make(chan struct{}), verdict: VOK, hash: 14695981039346656037}
 	S = s
+	s.registerPreinit()
 	g := s.newG("main", nil)
 	s.cur = g
 	s.noteRan(g)
